@@ -521,7 +521,9 @@ def suite_missing_pairs(rng, n, stats):
     cases = []
     ts = TokSpec('ws')
     for _ in range(n):
-        L, R, lk, rk, la, ra = gen_join_frames(rng, ts, stats, missing=rng.choice([0.0, 0.3, 0.6]))
+        # string-or-missing join values only: a non-string value next to None in a projected column is re-typed by pandas'
+        # dtype inference (0 -> 0.0), which is not the library's doing
+        L, R, lk, rk, la, ra = gen_join_frames(rng, ts, stats, missing=rng.choice([0.0, 0.3, 0.6]), nonstring=False)
         lo, ro = choose_out_attrs(rng, L, lk, la), choose_out_attrs(rng, R, rk, ra)
         lo2, ro2 = GH.remove_redundant_attrs(lo, lk), GH.remove_redundant_attrs(ro, rk)
         oss = rng.random() < 0.5
